@@ -923,6 +923,23 @@ def gen_ps(rng):
     return sc
 
 
+def gen_psprio(rng):
+    """limited processor sharing in a network with priority classes: the customers that do not fit wait, and the place
+    freed by a departure goes to the one that has waited longest"""
+    K = 2
+    sc = gen_tandem(rng, N=1, K=K)
+    sc["prio"] = rng.choice([[1, 0], [0, 1], [0, 0]])
+    sc["syscap"] = INF
+    nd = sc["nodes"][0]
+    nd.update({"kind": "ps", "c": rng.choice([1, 2, 2, 3]), "psR": rng.choice([1, 1, 2]), "qcap": INF})
+    for k in range(K):
+        sc["svcS"][0][k] = [rng.choice([2, 4, 6, 12]) for _ in range(2)]
+        sc["arrS"][0][k] = samples(rng, 1, 4, 2)
+    sc.pop("batchS", None)
+    sc["T"] = rng.randint(20, 60)
+    return sc
+
+
 def gen_psfifo(rng):
     """an unlimited PS node (R = 1) and a FIFO single-server node fed with the same arrivals and requirements"""
     m = rng.randint(3, 10)
@@ -1178,6 +1195,7 @@ def gen_stopcount(rng):
 
 
 FAMILIES = {
+    "psprio": gen_psprio,
     "mix2": gen_mix2,
     "exmix": gen_exmix,
     "exdead": gen_exdead,
@@ -1397,6 +1415,13 @@ def mc_instances(name, tier):
             fam.append({"N": 1, "K": 1, "nodes": [{"kind": "ps", "c": cap, "psR": R}],
                         "arrS": [[[6, 12]]], "svcS": [[[12, 24]]], "route": [tm([[0]])], "T": 84 if not big else 108})
         return [(fam, 5 if not big else 6)]
+    if name == "psprio":
+        fam = []
+        for cap, prio in [(1, [1, 0]), (2, [1, 0]), (2, [0, 1]), (2, [0, 0])]:
+            fam.append({"N": 1, "K": 2, "prio": prio, "nodes": [{"kind": "ps", "c": cap, "psR": 1}],
+                        "arrS": [[[6, 12], [6, 12]]], "svcS": [[[12, 24], [12, 24]]], "route": [tm([[0]]), tm([[0]])],
+                        "T": 84 if not big else 108})
+        return [(fam, 6 if not big else 7)]
     if name == "jockey":
         fam = []
         for pp in [0, 1]:
